@@ -411,7 +411,9 @@ func c06otherKinds() []c06kind {
 			}
 			return &c06lp{kind: "DATA", typ: 103, id: p.ID, f: []c06field{c06d(string(p.Data))}}, p, nil
 		},
-		fx: func(lp *c06lp) ([]byte, error) { return c06fxCompose(&sshfx.DataPacket{Data: []byte(lp.str(0))}, lp.id) },
+		fx: func(lp *c06lp) ([]byte, error) {
+			return c06fxCompose(&sshfx.DataPacket{Data: []byte(lp.str(0))}, lp.id)
+		},
 		fxDec: func(frame []byte) (*c06lp, []byte, error) {
 			var p sshfx.DataPacket
 			id, re, err := c06fxResp(frame, sshfx.PacketTypeData, &p)
